@@ -205,6 +205,10 @@ def check(ctx):
     r3(ctx, retsets)
     r4(ctx)
     r5(ctx)
+    from specs import C02
+    with ctx.shared({"C02.R3": ("C07.R6", "the purge really empties the socket's share of the prefix table: removal by source deletes every element of "
+                                "that source (slot re-examined after a deletion, node re-examined after a pull-up, both children, both families)")}):
+        C02.r3(ctx, retsets)
     ctx.not_decided("real time: the check is about which comparison is made and what follows it, not about clocks")
 
 
